@@ -49,7 +49,8 @@ def run(snap, tier, seed, t0, replay):
 
 ENC = {"str": str, "uri": (lambda x: x.uri), "none": (lambda x: None),
        # the encoder is the caller's: unhashable, non-injective, sometimes-None encodings are as good as any
-       "fields": (lambda x: x.fields), "keytype": (lambda x: x.keytype), "version": (lambda x: x.get("version"))}
+       "fields": (lambda x: x.fields), "keytype": (lambda x: x.keytype), "version": (lambda x: x.get("version")),
+       "zero": (lambda x: 0), "empty": (lambda x: "")}       # (only None means "no sid entry")
 
 
 def write_sidecars(lab, rng, conf):
@@ -87,9 +88,9 @@ def expected_record(data, sid, encname, attributes):
     d = dict(data)
     from spil import Sid
     enc = ENC[encname](Sid(sid))
-    if enc:
+    if enc is not None:
         d["sid"] = enc
-    if attributes:
+    if attributes is not None:
         return {k: d.get(k) for k in attributes}
     return d
 
@@ -181,7 +182,7 @@ def worker(args):
     rec = Rec("C16")
     lab = Lab(args.get("seed", 0))
     rng = lab.rng
-    attr_sets = [None] + [list(c) for n in range(1, 4) for c in itertools.combinations(KEYS, n)] + [["sid"], ["sid", "comment"], ["nope"]]
+    attr_sets = [None] + [list(c) for n in range(1, 4) for c in itertools.combinations(KEYS, n)] + [["sid"], ["sid", "comment"], ["nope"], []]
     if "replay" in args:
         c = args["replay"]
         rec.ev()
